@@ -108,6 +108,11 @@ def bind (ms : List Marshaler) (dflt : Marshaler) (r : BindReq) : Except BindErr
 /-- `standardResponseTranscoder.ContentType` after the D15 fix. -/
 def responseContentType (b : Bound) : Bytes := if b.isSSE then sseMime else b.respM.mime
 
+/-- `ContentType(google.rpc.Status)`: an error status is marshalled by `Transcode` as one plain document, never
+    framed as an SSE event, so it keeps the marshaler's type also for an SSE-bound transcoder (repo fix from the
+    C10 slice: "keep the marshaler's content type for error statuses of SSE requests"). -/
+def statusContentType (b : Bound) : Bytes := b.respM.mime
+
 /-- …and as it was before the fix (ignores `isSSE`). -/
 def responseContentTypePreFix (b : Bound) : Bytes := b.respM.mime
 
@@ -148,9 +153,9 @@ def httpOutcome (ms : List Marshaler) (dflt : Marshaler) (r : BindReq) (wholeBod
     let ct := responseContentType b
     if r.cs then { status := 501, ct := some ct, body := none }
     else if r.ss then
-      if !b.respM.stream then { status := 400, ct := some ct, body := none }
+      if !b.respM.stream then { status := 400, ct := some (statusContentType b), body := none }
       else match ps, e with
-        | [], .err c _ => { status := httpStatusFromCode c, ct := some ct, body := none }
+        | [], .err c _ => { status := httpStatusFromCode c, ct := some (statusContentType b), body := none }
         | [], _ => { status := 200, ct := none, body := some [] }
         | ps, _ => { status := 200, ct := some ct, body := some (streamBody b.isSSE ps) }
     else
